@@ -600,6 +600,27 @@ func ruleC10O6(r *Run) {
 						r.Check(fmt.Sprintf("%s send %s", name, l[strings.LastIndexByte(l, '.')+1:]), okSel, p.pos(x.Pos()), name, "send on "+l+" inside a select with a Done() or default case")
 					}
 				}
+			case *ssa.Call:
+				// the channel handed to a helper that performs the send (offer(ch, m), deliver(ctx, ch, m)): judged by
+				// the helper's sends on that parameter
+				cal := x.Call.StaticCallee()
+				if cal == nil || !p.Analysed(cal) || cal.Blocks == nil {
+					return
+				}
+				for i, a := range x.Call.Args {
+					if _, isCh := a.Type().Underlying().(*types.Chan); !isCh {
+						continue
+					}
+					for _, l := range p.Leaves(a, provOpts{}) {
+						if !apiDrained[strings.TrimPrefix(l, "field:")] {
+							continue
+						}
+						for _, ps := range paramSends(cal, i, 0) {
+							n++
+							r.Check(fmt.Sprintf("%s send %s", name, l[strings.LastIndexByte(l, '.')+1:]), !ps.blocking || ps.hasDone, p.pos(x.Pos()), name, "send on "+l+" through "+fnName(cal)+": a select with a Done() or default case")
+						}
+					}
+				}
 			}
 		})
 	}
